@@ -3,6 +3,8 @@ From Oxia.KeyOrder Require Import Model.
 From Oxia.Db Require Import Types Bytes Escape Keys Kv Sessions Indexes Sequences Notifications Write Read IndexReads.
 From Oxia.Db Require Import Snapshot.
 From Oxia.Db Require Import Validate C13_Replay.
+From Oxia.Db Require Import SeqWait.
+From Oxia.Db Require Import NotifStream.
 Extraction "db_model.ml"
   init_state process_write_full process_write wrapper_callbacks noop_callbacks
   update_term enable_notifications reopen persist
@@ -11,4 +13,6 @@ Extraction "db_model.ml"
   path_escape path_unescape hex16 pad20 scan20 scan_int64 ascii_of_Z cmp_slash
   session_key shadow_key index_key notification_key is_internal
   send_all load_all loader_new loader_dir
-  validate_request leader_write leader_restart apply_log init_node.
+  validate_request leader_write leader_restart apply_log init_node
+  step_new init_sys
+  trim trim_state dispatch serve session client_new client_request client_request_o17 client_recv_all.
